@@ -35,7 +35,9 @@ def magnitude_class(arr, outside):
     m = int(arr.max()) if arr.size else 0
     if outside is not None:
         m = max(m, int(outside))
-    return "le2^24" if m <= 2 ** 24 else "le2^53" if m <= 2 ** 53 else "gt2^53"
+    # a pairwise half-sum of 8 values needs 3 bits more than the values:
+    # float64 arithmetic is exact up to 2^50
+    return "le2^24" if m <= 2 ** 24 else "le2^50" if m <= 2 ** 50 else "gt2^50"
 
 
 def add_call(ctx, calls, origin, method, factors, outside, arr):
